@@ -122,7 +122,12 @@ impl TypeEntry {
             }
             TypeEntryDetails::Tuple(types) => {
                 let tup = value_for_tuple(type_space, value, types, scope)?;
-                quote! { ( #( #tup ),* )}
+                if tup.len() == 1 {
+                    // `(x)` is just `x`; a one-element tuple needs `(x,)`.
+                    quote! { ( #( #tup ),* , )}
+                } else {
+                    quote! { ( #( #tup ),* )}
+                }
             }
             TypeEntryDetails::Array(type_id, _) => {
                 let arr = value.as_array()?;
